@@ -202,6 +202,14 @@ impl PairWorld {
         self.provide_exec(user, amounts, slippage, receiver)
     }
 
+    /// The direct `WithdrawLiquidity {}` message (meant for token-factory LP denoms) with an
+    /// arbitrary native coin attached; on a cw20-LP pool it must always be rejected.
+    pub fn withdraw_direct(&mut self, user: &Addr, denom: &str, amount: u128) -> ExecResult {
+        let pair = self.pair.clone();
+        let funds = if amount == 0 { vec![] } else { vec![coin(amount, denom)] };
+        self.w.exec(user, &pair, &pair::ExecuteMsg::WithdrawLiquidity {}, &funds)
+    }
+
     pub fn withdraw(&mut self, user: &Addr, shares: u128) -> ExecResult {
         let lp = self.lp.clone();
         let pair = self.pair.clone();
@@ -293,6 +301,29 @@ impl PairWorld {
                     withdrawals_enabled: withdrawals,
                     deposits_enabled: deposits,
                     swaps_enabled: swaps,
+                }),
+            },
+            &[],
+        )
+    }
+
+    /// One UpdatePairConfig message through the factory carrying any combination of fields.
+    pub fn update_cfg(&mut self, fees: Option<[u128; 3]>, toggle: Option<[bool; 3]>, collector: bool) -> ExecResult {
+        let owner = self.w.owner.clone();
+        let factory = self.w.factory.clone().unwrap();
+        let col = self.collector.to_string();
+        self.w.exec(
+            &owner,
+            &factory,
+            &white_whale_std::pool_network::factory::ExecuteMsg::UpdatePairConfig {
+                pair_addr: self.pair.to_string(),
+                owner: None,
+                fee_collector_addr: if collector { Some(col) } else { None },
+                pool_fees: fees.map(pool_fee),
+                feature_toggle: toggle.map(|f| pair::FeatureToggle {
+                    withdrawals_enabled: f[0],
+                    deposits_enabled: f[1],
+                    swaps_enabled: f[2],
                 }),
             },
             &[],
@@ -509,6 +540,13 @@ impl TrioWorld {
     ) -> ExecResult {
         self.grant(user, amounts);
         self.provide_exec(user, amounts, slippage, receiver)
+    }
+
+    /// The direct `WithdrawLiquidity {}` message with an arbitrary native coin attached (see PairWorld).
+    pub fn withdraw_direct(&mut self, user: &Addr, denom: &str, amount: u128) -> ExecResult {
+        let trio = self.trio.clone();
+        let funds = if amount == 0 { vec![] } else { vec![coin(amount, denom)] };
+        self.w.exec(user, &trio, &trio::ExecuteMsg::WithdrawLiquidity {}, &funds)
     }
 
     pub fn withdraw(&mut self, user: &Addr, shares: u128) -> ExecResult {
